@@ -50,8 +50,8 @@ type ext10Ev struct {
 }
 
 var ext10Sym = map[string]string{
-	"a": "a", "b": "b", "z": "z", "B": "B", "Z": "Z", "7": "7", "0": "0", "-": "-",
-	"_": "_", ".": ".", "!": "!", "~": "~", "/": "/",
+	"a": "a", "b": "b", "z": "z", "A": "A", "B": "B", "Z": "Z", "7": "7", "0": "0", "9": "9", "-": "-",
+	"_": "_", ".": ".", "!": "!", "~": "~", "/": "/", "@": "@", "[": "[", "`": "`", "{": "{", ":": ":",
 	"sp": " ", "nl": "\n", "del": "\x7f",
 	"e2": "é", "e3": "€", "e4": "\U0001F600",
 }
@@ -120,8 +120,9 @@ func TestVerifEXT10HumanID(t *testing.T) {
 
 	// the random leg
 	rng := rand.New(rand.NewSource(vhSeed()*104729 + 10))
-	all := []string{"a", "b", "z", "B", "Z", "7", "0", "-", "-", "-", "_", ".", "!", "~", "/", "sp", "nl", "del", "e2", "e3", "e4"}
-	idish := []string{"a", "b", "z", "B", "Z", "7", "0", "-", "-", "a", "7"}
+	all := []string{"a", "b", "z", "A", "B", "Z", "7", "0", "9", "-", "-", "-", "-", "_", ".", "!", "~", "/", "@", "[", "`", "{", ":",
+		"sp", "nl", "del", "e2", "e3", "e4"}
+	idish := []string{"a", "b", "z", "A", "B", "Z", "7", "0", "9", "-", "-", "-", "a", "7"}
 	n := vhEnvInt("VERIF_NRANDOM", 500)
 	for i := 0; i < n; i++ {
 		var ln int
